@@ -1,4 +1,5 @@
 """C09 - Socket.IO encoding round-trips, matches the v5 format, leaves its input intact."""
+import json
 import re
 from lib.vlib import gZ, gN, gnat, gbool, glist, gopt, gpair
 
@@ -109,6 +110,60 @@ def case_term(r, typed):
         gopt(typed_vals), gopt(anyd), gbool(skip_any)))
 
 
+def leaf_classes(t, out):
+    """Boundary classes of the leaves of a value tree (measured input distribution)."""
+    k = t[0]
+    if k == "B":
+        n = len(t[1])
+        out.append("bin:%s" % ("0" if n == 0 else "1" if n == 1 else "2-15" if n < 16 else "16+"))
+    elif k == "s":
+        n = len(t[1])
+        out.append("str:%s" % ("0" if n == 0 else "1-7" if n < 8 else "8+"))
+    elif k == "i":
+        z = int(t[1])
+        out.append("int:%s" % ("0" if z == 0 else "neg-big" if z <= -(2 ** 53 - 1) else "neg" if z < 0
+                               else "big" if z >= 2 ** 53 - 1 else "pos"))
+    elif k == "n":
+        out.append("nil")
+    elif k == "b":
+        out.append("bool")
+    elif k in ("a", "p"):
+        leaf_classes(t[1], out)
+    elif k == "l":
+        out.append("list:%s" % ("empty" if not t[1] else "nonempty"))
+        for x in t[1]:
+            leaf_classes(x, out)
+    elif k in ("S", "m"):
+        out.append("%s:%s" % ("struct" if k == "S" else "map", "empty" if not t[1] else "nonempty"))
+        for f in t[1]:
+            leaf_classes(f[1], out)
+
+
+def case_classes(r):
+    out = []
+    if r["v"] is not None:
+        leaf_classes(r["v"], out)
+    nsp = bytes(r["h"]["nsp"])
+    out.append("nsp:%s" % ("empty" if nsp == b"" else "root" if nsp == b"/" else "other"))
+    out.append("id:%s" % ("none" if r["h"]["id"] == "" else "0" if r["h"]["id"] == "0" else
+                          "max" if r["h"]["id"] == str(2 ** 64 - 1) else "other"))
+    if r["h"]["t"] == 2 and r["v"] is not None:
+        try:
+            name = r["v"][1][1][0][1][1]
+            out.append("name:%s" % ("empty" if len(name) == 0 else "nonempty"))
+        except (IndexError, TypeError):
+            pass
+    if r["frames"] and len(r["frames"]) > 1:
+        out.append("att-frame:%s" % ("empty" if any(len(f) == 0 for f in r["frames"][1:]) else "nonempty"))
+    return out
+
+
+# classes every run has to exercise (a dimension that is constant in practice hides bugs at its boundary)
+REQUIRED = ["bin:0", "bin:1", "bin:16+", "str:0", "int:0", "int:neg", "int:big", "int:neg-big", "nil", "list:empty",
+            "map:empty", "nsp:empty", "nsp:root", "nsp:other", "id:none", "id:0", "id:max", "name:empty",
+            "att-frame:empty"]
+
+
 MASK = {1: "encode-refused", 2: "wire-not-v5", 4: "roundtrip-header", 8: "any-handler-binary", 16: "any-handler-binary",
         32: "value-changed", 64: "header-rewritten", 128: "reencode-differs"}
 WHAT = {
@@ -140,6 +195,8 @@ def codec_suite(ctx, vh, name, args):
         except Unsupported:
             skipped += 1
     for r in kept:
+        for cl in case_classes(r):
+            ctx.dist["leaf:" + cl] = ctx.dist.get("leaf:" + cl, 0) + 1
         nb = len(r["frames"] or []) - 1
         key = (r["h"]["t"], tuple(r["h"]["nsp"]), r["h"]["id"], repr(r["v"])) if (nb > 0 or r["dname"]) else None
         ctx.count(1, nontrivial_key=key,
@@ -226,7 +283,7 @@ def json_suite(ctx, vh):
     pterms, pexp, uterms, uexp = [], [], [], []
     for r in rows:
         ctx.count(1, nontrivial_key=("j", tuple(r["text"])) if len(r["text"]) > 6 else None, dist="json")
-        if r["v"] is not None:
+        if r["v"] is not None and '"B"' not in json.dumps(r["v"]):  # Binary cells: codec suites
             try:
                 pterms.append("(match to_jv jparse %s with Ok j => bytes_eqb (jprint j) %s | _ => false end)" % (
                     g_gv(r["v"]), gbytes(r["out"])))
@@ -273,3 +330,11 @@ def run(ctx):
     codec_suite(ctx, vh, "generated", ["-mode", "codec", "-seed", ctx.seed, "-n", 45 if ctx.quick else 6000])
     codec_suite(ctx, vh, "refused", ["-mode", "codec", "-hard", "-seed", int(ctx.seed) + 1, "-n", 20 if ctx.quick else 1500])
     json_suite(ctx, vh)
+    missing = [c for c in REQUIRED if not ctx.dist.get("leaf:" + c)]
+    ctx.obligation("coverage:boundary-classes", "coverage", not missing,
+                   "leaf / header boundary classes exercised: %s; missing: %s" % (
+                       {c: ctx.dist.get("leaf:" + c, 0) for c in REQUIRED}, missing))
+    if missing:
+        ctx.violation("the generators did not exercise the boundary classes %s (input distribution too narrow: "
+                      "the check cannot vouch for the property there)" % missing,
+                      {"kind": "correspondence-broken", "suite": "coverage", "missing": missing}, no_input=True)
